@@ -54,16 +54,20 @@ def check_read_block(ctx):
               "stored CRC is the masked fixed32 at data + n + 1", "stored CRC read as %s" % d.get("crc"))
     ctx.check(d.get("actual") in ("ldb_crc32c_extend(0, data, (n + 1))", "ldb_crc32c_value(data, (n + 1))"), "T6-block-trailer",
               "reader:crc-coverage", f.name, f.loc, "CRC covers contents + type byte (n + 1 bytes)", "CRC computed as %s" % d.get("actual"))
-    # (c) type switch
-    from .c13 import switch_cases
-    sw, cases, dflt = switch_cases(f, "data[n]")
-    ctx.require(sw is not None, "ldb_read_block: switch over the block type not found")
-    ctx.check(set(cases) == {"LDB_NO_COMPRESSION", "LDB_SNAPPY_COMPRESSION"} and dflt, "T6-block-trailer", "reader:type-switch", f.name, f.loc,
-              "none / snappy handled, anything else rejected", "block types handled: %s default=%s" % (sorted(cases), dflt))
+    # (c) block type: none and snappy can succeed, every other value is LDB_CORRUPTION on every path
+    # (specialised per value of the type byte: holds for a switch and for an if-chain alike)
     from ..rules import returned_after
-    vals = returned_after(ctx, f, arm_edge=lambda lit: lit[0] == "default" and key(lit[1]) == "data[n]")
-    ctx.check(vals == {30002}, "T6-block-trailer", "reader:unknown-type", f.name, f.loc,
-              "an unknown block type is LDB_CORRUPTION on every path", "an unknown block type returns %s" % sorted(map(str, vals)))
+    ctx.require(any(e["e"] == "idx" and key(e["b"]) == "data" and key(e["i"]) == "n" for b2, i2, e in f.events("idx")),
+                "ldb_read_block: read of the block type byte data[n] not found")
+    for name, val in (("LDB_NO_COMPRESSION", 0), ("LDB_SNAPPY_COMPRESSION", 1)):
+        vals = returned_after(ctx, f, assume=("data[n]", val))
+        ctx.check(0 in vals, "T6-block-trailer", "reader:type-switch:" + name, f.name, f.loc,
+                  "a block of type %s can be read" % name, "a block of type %s can only return %s" % (name, sorted(map(str, vals))))
+    for val in (2, 255):
+        vals = returned_after(ctx, f, assume=("data[n]", val), arm_event=lambda e: e["e"] == "idx" and key(e["b"]) == "data" and key(e["i"]) == "n")
+        ctx.check(vals == {30002}, "T6-block-trailer", "reader:unknown-type", f.name, f.loc,
+                  "an unknown block type (%d) is LDB_CORRUPTION on every path" % val,
+                  "an unknown block type (%d) returns %s" % (val, sorted(map(str, vals))), subject="reader:unknown-type")
     # (d) snappy: size, allocation and decode in order, each checked
     ds = need_call(ctx, "T2-block-snappy", "decode_size", f, ("snappy_decode_size", "ldb_snappy_decode_size"), "the uncompressed size is validated")
     dc = need_call(ctx, "T2-block-snappy", "decode", f, ("snappy_decode", "ldb_snappy_decode"), "the block is decompressed")
